@@ -50,7 +50,7 @@ MANIFEST = {
             'non-ignored element once; Graph.prune keeps a fixed edge (in the forward and the reverse view) and otherwise a largest '
             'stretchy one; a fixed entry of the Lineq.add constraint table is never replaced.  The stages of Graph.solve '
             '(longest_path/makepath, assign_longest, assign_fixed, assign_stretchy, path_to_closest_known) are an executable Coq model '
-            'evaluated against the real solve on every generated graph, with REFUTATION theorems: four concrete feasible constraint '
+            'evaluated against the real solve on every generated graph, with REFUTATION theorems: five concrete feasible constraint '
             'graphs on which the modelled rules violate a constraint (the open findings).  Pin tables, stretch flags and the direction->angle->rotation table are regenerated '
             'from the source on every run with vm_compute obligations.  PARTIAL: the placement heuristics assign_fixed/'
             'assign_stretchy and the Lineq LU solve are not proved; instead every generated schematic (consistent hints by '
@@ -880,6 +880,15 @@ def own_violated(res):
         walked = g.get('walked') or {}
         rule_ok = g.get('rule_ok') or {}
         squeezed = g.get('squeezed') or {}
+        wedges = g.get('walked_edges') or {}
+        spath = g.get('stretch_path') or {}
+
+        def chord_of_walk(end, other, e):
+            # `end` was positioned by a two-known-nodes walk whose path contains the node `other` but NOT the
+            # edge e, and that walk is not the path the stretch was computed for (fail closed: facts must be recorded)
+            if end not in wedges or end not in spath or end not in walked:
+                return False
+            return other in walked[end] and e not in wedges[end] and wedges[end] != spath[end]
         for cpt, f, t, size, stretch in g['edges']:
             if f[0] not in sol or t[0] not in sol:
                 continue
@@ -890,7 +899,11 @@ def own_violated(res):
                             'rule_f': rule_ok.get('|'.join(f)), 'rule_t': rule_ok.get('|'.join(t)),
                             'squeezed_f': bool(squeezed.get('|'.join(f))), 'squeezed_t': bool(squeezed.get('|'.join(t))),
                             'f_on_walk_of_t': '|'.join(f) in walked.get('|'.join(t), ['|'.join(f)]),
-                            't_on_walk_of_f': '|'.join(t) in walked.get('|'.join(f), ['|'.join(t)])})
+                            't_on_walk_of_f': '|'.join(t) in walked.get('|'.join(f), ['|'.join(t)]),
+                            'chord_of_walk_of_t': chord_of_walk('|'.join(t), '|'.join(f), '|'.join(f) + '>' + '|'.join(t)),
+                            'chord_of_walk_of_f': chord_of_walk('|'.join(f), '|'.join(t), '|'.join(f) + '>' + '|'.join(t)),
+                            'walk_of_t': wedges.get('|'.join(t)), 'stretch_path_of_t': spath.get('|'.join(t)),
+                            'walk_of_f': wedges.get('|'.join(f)), 'stretch_path_of_f': spath.get('|'.join(f))})
         for n, members in g['cnodes'].items():
             if n in sol and members[0] in sol and Fraction(sol[n]) != Fraction(sol[members[0]]):
                 bad.append({'ax': ax, 'kind': 'link', 'f': [n], 't': [members[0]]})
@@ -925,6 +938,14 @@ def graph_signature(item):
         # both ends were positioned rigidly (critical path / fixed offsets): the longest-path stage treats
         # fixed edges as one-directional
         return 'Graph.assign_fixed:stretchy-ge-violated:rigid-fixed-chain'
+    if (str(ht).startswith('between') and not item.get('squeezed_t') and item.get('chord_of_walk_of_t') is True) or \
+            (str(hf).startswith('between') and not item.get('squeezed_f') and item.get('chord_of_walk_of_f') is True):
+        # one end was positioned by the two-known-nodes branch along a walked path (path_to_closest_known from
+        # the gnode being processed) that is NOT the path the stretch was computed for (longest_path between the
+        # two placed end nodes); both ends of this edge lie on the walked path but the edge itself does not (it
+        # is a chord of the walk): the node was laid out as a passer-by of another gnode's walk with the stretch
+        # of a different path, its own edge from the walk's placed end node / an earlier walked node ignored
+        return 'Graph.assign_stretchy:stretchy-ge-violated:walk-not-longest-path'
     return None
 
 
@@ -932,7 +953,7 @@ def classify(case, res, spec_bad):
     """key of a violating placement.  It is a KNOWN-finding key only for the specific situations recorded in
     known_findings.json:
       graph : every violated spec constraint is a '>=' of a stretchy component, the solve stage alone violates
-              only '>=' edges of lcapy's own (Coq-validated) graph, and every such edge has one of the three
+              only '>=' edges of lcapy's own (Coq-validated) graph, and every such edge has one of the
               root-cause signatures above;
       lineq : the solve stage alone violates its own constraints and (a) the LU factor has a rounding-residue
               pivot, or (b) an off-diagonal pivot (equation left out), or (c) only stretchy constraints are
@@ -1285,7 +1306,7 @@ SPACINGS = ['1', '3/2', '2', '2', '5/2', '3']
 
 # minimal reproducers of the defects recorded in known_findings.json (always run first)
 CORPUS = [
-    # graph placer, four distinct failing situations (known_findings.json)
+    # graph placer, distinct failing situations (known_findings.json)
     {'id': 'corpus_graph_dangling', 'method': 'graph', 'opts': {'node_spacing': '1'},
      'lines': ['VM3 1 3; up=0.5', 'W1 3 6; up=0.5', 'L1 2 6; up, size=2', 'W2 2 3; up=0.75']},
     {'id': 'corpus_graph_unwalked', 'method': 'graph', 'opts': {'node_spacing': '3'},
@@ -1294,6 +1315,8 @@ CORPUS = [
      'lines': ['NR1 1 2_2; down=1, fixed', 'W2 5 2_2; up', 'V1 3_3 7; up=0.5, size=3, fixed', 'Y1 2_2 3_3; right=1', 'FS1 1 5; down=1, size=3']},
     {'id': 'corpus_graph_rigid_eq', 'method': 'graph', 'opts': {'node_spacing': '2'},
      'lines': ['P1 1 4; right=1, fixed', 'I1 5 1; right=0.5', 'L1 5 4; right=2, fixed', 'P2 6 1; left=2']},
+    {'id': 'corpus_graph_offpath', 'method': 'graph', 'opts': {'node_spacing': '1'},
+     'lines': ['R1 1 2; right=0.75', 'C1 2 3; right=0.5', 'R2 3 4; right=0.5', 'L1 1 3; right=2', 'W1 1 4; right=3']},
     {'id': 'corpus_graph_squeezed', 'method': 'graph', 'opts': {'node_spacing': '2'},
      'lines': ['Y1 1 7; right=1.75', 'Z1 7 2; right=1.75', 'O1 1 3; down', 'NR1 3 5; right=0.5', 'O 5 6; right, fixed',
                'G1 2 4 1 2; down', 'R9 5 9; right=4', 'P2 6 4; right=1.5, fixed']},
@@ -1316,6 +1339,7 @@ CORPUS_WIT = {
     'corpus_graph_squeezed': {'1': (0, 1), '7': (F(7, 4), 1), '2': (F(7, 2), 1), '3': (0, 0), '5': (1, 0), '6': (2, 0),
                               '4': (F(7, 2), 0), '9': (5, 0)},
     'corpus_graph_rigid_eq': {'5': (0, 0), '1': (1, 0), '4': (2, 0), '6': (3, 0)},
+    'corpus_graph_offpath': {'1': (0, 0), '2': (1, 0), '3': (2, 0), '4': (3, 0)},
     'corpus_lineq_negative_stretch': {'2': (0, 1), '1': (0, 0), '3': (0, 2)},
     'corpus_lineq_equation_dropped': {'1': (1, 0), '2': (1, 3), '3': (1, F(5, 2)), '8': (1, F(7, 2))},
     'corpus_lineq_float_rank': {'1': (0, 0), '2': (F(1, 10), 0), '3': (F(3, 10), 0)},
@@ -1501,7 +1525,7 @@ def run(tier='quick', replay=None):
                      'a violating placement is a KNOWN finding only when (graph) every violated constraint is a >= of a stretchy component '
                      '[or the one recorded case of a redundant fixed edge between two rigidly positioned nodes], the solve stage alone violates '
                      'lcapy\'s own Coq-validated graph, each violated edge carries a recorded root-cause signature (dangling-path, '
-                     'unwalked-neighbour, rigid-fixed-chain; from an observation-only trace of which stage positioned each gnode) and every end '
+                     'unwalked-neighbour, squeezed-path, rigid-fixed-chain, walk-not-longest-path; from an observation-only trace of which stage positioned each gnode) and every end '
                      'point sits exactly where the documented rule of that stage puts it; (lineq) the LU factor shows a rounding-residue pivot / an '
                      'off-diagonal pivot, or the negative slacks equal the values lcapy warned about.  A violated fixed constraint of the stretch '
                      'stage, a wrong direction, unequal linked coordinates, missing/duplicate positions are always reported as new; shrinking '
